@@ -776,6 +776,133 @@ explore_race(racearg *a, int p, int total)
 	vx_explore(&c, NULL);
 }
 
+// ---- (4) pipe arrival racing with its departure ------------------------------------------------
+// PUSH dials a PULL listener whose side drops the new connection at once (rejects it in ADD_PRE, or
+// another thread closes the PULL socket); afterwards the PUSH socket is used again.  Every message it
+// accepts must reach the second, healthy puller, and nothing may touch a pipe that is gone.
+typedef struct churnarg {
+	int how;     // 0 reject in ADD_PRE, 1 concurrent close of the PULL socket
+	int sendbuf;
+} churnarg;
+static int churn_reject;
+static void
+churn_cb(nng_pipe p, nng_pipe_ev ev, void *arg)
+{
+	(void) arg;
+	if (ev == NNG_PIPE_EV_ADD_PRE && churn_reject > 0) {
+		churn_reject--;
+		nng_pipe_close(p);
+	}
+}
+static void *
+churn_dial(void *a)
+{
+	(void) a;
+	int rv = nng_dial(push, "inproc://c06c", NULL, 0);
+	if (rv != 0 && rv != NNG_ECONNREFUSED && rv != NNG_ECLOSED && rv != NNG_ECONNRESET &&
+	    rv != NNG_ECONNABORTED)
+		vs_fail("C06:churn", "dial -> %s", nng_strerror(rv));
+	return NULL;
+}
+static void *
+churn_close(void *a)
+{
+	(void) a;
+	nng_socket_close(PL[0].s);
+	return NULL;
+}
+
+static void
+run_churn(void *argp)
+{
+	churnarg *ca = argp;
+	vh_init(0);
+	ledger_reset();
+	g_body = 8;
+	snprintf(hist, sizeof(hist), "churn how %d sendbuf %d", ca->how, ca->sendbuf);
+	memset(PL, 0, sizeof(PL));
+	VH_OK(nng_push0_open(&push));
+	VH_OK(nng_socket_set_int(push, NNG_OPT_SENDBUF, ca->sendbuf));
+	VH_OK(nng_socket_set_ms(push, NNG_OPT_SENDTIMEO, 50));
+	VH_OK(nng_socket_set_ms(push, NNG_OPT_RECONNMINT, 1000));
+	VH_OK(nng_socket_set_ms(push, NNG_OPT_RECONNMAXT, 1000));
+	for (int k = 0; k < 2; k++) {
+		VH_OK(nng_pull0_open(&PL[k].s));
+		VH_OK(nng_socket_set_ms(PL[k].s, NNG_OPT_RECVTIMEO, 50));
+	}
+	churn_reject = ca->how == 0 ? 1 : 0;
+	VH_OK(nng_pipe_notify(PL[0].s, NNG_PIPE_EV_ADD_PRE, churn_cb, NULL));
+	VH_OK(nng_listen(PL[0].s, "inproc://c06c", NULL, 0));
+	VH_OK(nng_listen(PL[1].s, "inproc://c06d", NULL, 0));
+	vs_settle();
+	pthread_t t1, t2;
+	vs_unlock_points = 1;
+	vs_window(1);
+	pthread_create(&t1, NULL, churn_dial, NULL);
+	if (ca->how == 1)
+		pthread_create(&t2, NULL, churn_close, NULL);
+	pthread_join(t1, NULL);
+	if (ca->how == 1)
+		pthread_join(t2, NULL);
+	vs_window(0);
+	vs_settle();
+	if (ca->how == 1) { // the ledger's drain needs an open socket in slot 0
+		VH_OK(nng_pull0_open(&PL[0].s));
+		VH_OK(nng_socket_set_ms(PL[0].s, NNG_OPT_RECVTIMEO, 50));
+	}
+	// the healthy puller arrives; the socket is used again
+	VH_OK(nng_dial(push, "inproc://c06d", NULL, 0));
+	vs_settle();
+	for (int i = 0; i < 4; i++) {
+		int      tag = ntag++;
+		nng_msg *m   = mk_msg(tag);
+		R[tag].sub   = ++evt;
+		int rv       = nng_sendmsg(push, m, NNG_FLAG_NONBLOCK);
+		R[tag].done  = ++evt;
+		vs_settle();
+		if (rv == 0) {
+			R[tag].state = ST_ACCEPTED;
+			continue;
+		}
+		if (rv != NNG_EAGAIN)
+			vs_fail("C06:send-result", "[%s] send -> %s", hist, nng_strerror(rv));
+		R[tag].state = ST_REJECTED;
+		reclaim(tag, m, "non-blocking send");
+	}
+	drain_all();
+	vs_sleep(60);
+	drain_all();
+	int acc, rej, lost;
+	check_final(&acc, &rej, &lost);
+	vs_nontrivial();
+	vs_outcome("acc=%d rej=%d rxA=%d rxB=%d", acc, rej, nrx[0], nrx[1]);
+	for (int k = 0; k < 2; k++)
+		nng_socket_close(PL[k].s);
+	nng_socket_close(push);
+	vh_fini();
+}
+
+static void
+explore_churn(churnarg *a, int p, int total)
+{
+	char nm[64];
+	snprintf(nm, sizeof(nm), "churn-h%d-buf%d-p%d-t%d", a->how, a->sendbuf, p, total);
+	vx_cfg c;
+	memset(&c, 0, sizeof(c));
+	c.prop     = "C06";
+	c.scenario = nm;
+	c.run      = run_churn;
+	c.arg      = a;
+	c.budget[VB_PREEMPT] = p;
+	c.budget[VB_SWITCH]  = 2;
+	c.budget[VB_TIMER]   = 1;
+	c.budget[VB_WAKE1]   = 1;
+	c.budget[VB_ENV]     = -1;
+	c.total              = total;
+	c.watchdog_s         = 20;
+	vx_explore(&c, NULL);
+}
+
 int
 main(int argc, char **argv)
 {
@@ -842,6 +969,17 @@ main(int argc, char **argv)
 	// (3) schedules: blocking sender(s) || puller becoming ready.
 	// {sendbuf, mode, senders}; sizes measured on this tree (executions):
 	// m0 p1/t2 1.5 k, p2/t3 37 k; m1 p1/t1 0.2 k, p1/t2 10-14 k; m2 p1/t2 15 k
+	static churnarg CH[] = { { 0, 0 }, { 1, 0 }, { 0, 1 }, { 1, 1 } };
+	for (int i = 0; i < 4; i++) {
+		if (g_replay) {
+			explore_churn(&CH[i], 1, 1);
+			explore_churn(&CH[i], 1, 2);
+			explore_churn(&CH[i], 2, 2);
+		} else if (!T)
+			explore_churn(&CH[i], 1, i < 2 ? 2 : 1);
+		else
+			explore_churn(&CH[i], 2, 2);
+	}
 	static racearg RC[] = { { 0, 0, 1 }, { 1, 0, 1 }, { 0, 1, 1 }, { 1, 1, 1 },
 		{ 0, 2, 1 }, { 1, 0, 2 } };
 	if (g_replay) {
